@@ -195,7 +195,40 @@ func (s *Stats) account(r runOut) {
 }
 
 // S0 runs the canonical schedule once.
+// FreeReps is the number of free-running executions per scenario in free mode.
+var FreeReps = 6
+
+// freeRuns runs the scenario a few times as ordinary goroutines (free mode, see mc.SetFree): a sample for Go's race
+// detector, never a decision; the oracle is still evaluated on each run.
+func freeRuns(sc Scenario) *Stats {
+	st := newStats()
+	st.Exhaustive = false
+	st.CapHit = "free-running sample"
+	for i := 0; i < FreeReps; i++ {
+		ex := sc()
+		res := mc.Run(ex.Body, mc.Options{})
+		if res.Cut {
+			if ex.Cleanup != nil {
+				ex.Cleanup()
+			}
+			break
+		}
+		out, viol := ex.Observe(res)
+		if ex.Cleanup != nil {
+			ex.Cleanup()
+		}
+		if res.Deadlock {
+			viol = "" // a free run that did not finish in time proves nothing
+		}
+		st.account(runOut{res: res, outcome: out, viol: viol})
+	}
+	return st
+}
+
 func S0(sc Scenario, o Opts) *Stats {
+	if mc.Free() {
+		return freeRuns(sc)
+	}
 	st := newStats()
 	ex := sc()
 	res := mc.Run(ex.Body, mc.Options{Races: o.Races, MaxEvents: o.MaxEvents, OnPoint: ex.OnPoint, Sites: o.Sites})
@@ -217,6 +250,9 @@ func Replay(sc Scenario, choices []int, o Opts) (string, string, *mc.Result) {
 // DelayBounded explores every schedule that deviates at most d times from the
 // canonical choice (S2). No independence is assumed.
 func DelayBounded(sc Scenario, d int, o Opts) *Stats {
+	if mc.Free() {
+		return freeRuns(sc)
+	}
 	st := newStats()
 	if o.MaxExec == 0 {
 		o.MaxExec = 200000
@@ -255,6 +291,9 @@ func DelayBounded(sc Scenario, d int, o Opts) *Stats {
 
 // FullDFS explores every schedule (unreduced); only for tiny self-test programs.
 func FullDFS(sc Scenario, o Opts) *Stats {
+	if mc.Free() {
+		return freeRuns(sc)
+	}
 	return DelayBounded(sc, 1<<30, o)
 }
 
@@ -356,6 +395,9 @@ func isMu(k mc.OpKind) bool {
 // DPOR explores one representative of every Mazurkiewicz trace (S1): stateless
 // dynamic partial-order reduction (Flanagan-Godefroid) with sleep sets.
 func DPOR(sc Scenario, o Opts) *Stats {
+	if mc.Free() {
+		return freeRuns(sc)
+	}
 	st := newStats()
 	if o.MaxExec == 0 {
 		o.MaxExec = 200000
